@@ -60,7 +60,10 @@ Fixpoint find_output_type (l : list impl_member) : result ty :=
   | _ :: rest => find_output_type rest
   end.
 
-Definition ref_type_with (t : ty) (is_ref : bool) : ty := if is_ref then TyRef None false t else t.
+(** `ref_type`: `&T`; bounds joined by `+` are parenthesised after `&` (`&(dyn A + B)`) *)
+Definition ref_type (t : ty) : ty :=
+  TyRef None false (match t with TyDyn (_ :: _ :: _) => TyParen t | _ => t end).
+Definition ref_type_with (t : ty) (is_ref : bool) : ty := if is_ref then ref_type t else t.
 
 (** the attribute arguments of an `impl` item are a plain identifier list plus `dump` *)
 Definition impl_args_ok (a : dx_args) : bool :=
@@ -94,7 +97,7 @@ Definition build_by_item_impl (a : dx_args) (i : item_impl) : result outcome :=
             (if make_assign
              then if make_binary
                   then [OpAssignFromBin g op this rhs true;
-                        OpAssignFromBin g op this (TyRef None false rhs) true]
+                        OpAssignFromBin g op this (ref_type rhs) true]
                   else [OpAssignFromBin g op this rhs_orig this_is_ref]
              else []))
     | FAssign =>
